@@ -7,7 +7,7 @@
    comb / fuel / the script [evs] quantify over every reader behaviour (arbitrary
    chunking, 0-byte reads, an error at any offset, data together with EOF/error).
    [matches_desc H dg sz bs] = length bs = sz /\ dg = alg:H alg bs /\ dg is a valid digest. *)
-From Oras Require Import Base.Prelude Generated.GC05 Model.Verify Proofs.Verify Proofs.VerifyComplete Proofs.VerifyProxy.
+From Oras Require Import Base.Prelude Generated.GC05 Model.Verify Proofs.Verify Proofs.VerifyComplete Proofs.VerifyProxy Proofs.VerifyFuel.
 
 (* ReadAll hands back data only when length and digest match and the reader held
    nothing else *)
@@ -238,6 +238,29 @@ Proof.
   - intros s name d bs R. exact (file_fetch_ok H s name d bs (file_reach_ok H s R)).
 Qed.
 Print Assumptions C05_visible_matches.
+
+(* the fuel of the model's loops excludes nothing: with more fuel than the weight of
+   the reader script (events + bytes) ReadAll and CopyBuffer (buffer >= 1) never
+   report EFuel and their complete result no longer depends on the fuel *)
+Theorem C05_fuel_sufficient :
+  forall (H : str -> str -> str) comb fixed fuel src bufsz dg sz,
+    (ev_weight (b_evs src) < fuel)%nat ->
+    fst (fst (read_all H comb fixed fuel src dg sz)) <> Some EFuel /\
+    (forall fuel', (ev_weight (b_evs src) < fuel')%nat ->
+       read_all H comb fixed fuel' src dg sz = read_all H comb fixed fuel src dg sz) /\
+    ((1 <= bufsz)%nat ->
+       fst (fst (copy_buffer H comb fixed fuel src bufsz dg sz)) <> Some EFuel /\
+       forall fuel', (ev_weight (b_evs src) < fuel')%nat ->
+         copy_buffer H comb fixed fuel' src bufsz dg sz = copy_buffer H comb fixed fuel src bufsz dg sz).
+Proof.
+  intros H comb fixed fuel src bufsz dg sz Fu. split; [|split].
+  - exact (read_all_no_fuel H comb fixed fuel src dg sz Fu).
+  - intros fuel' Fu'. exact (read_all_fuel_indep H comb fixed fuel' fuel src dg sz Fu' Fu).
+  - intro B1. split.
+    + exact (copy_buffer_no_fuel H comb fixed fuel src bufsz dg sz B1 Fu).
+    + intros fuel' Fu'. exact (copy_buffer_fuel_indep H comb fixed fuel' fuel src bufsz dg sz B1 Fu' Fu).
+Qed.
+Print Assumptions C05_fuel_sufficient.
 
 (* cas.Proxy (NewProxy / NewProxyWithLimit over a cas.Memory cache; Fetch, any
    sequence of Read sizes, Close; StopCaching on or off; the io.Pipe / drain protocol
